@@ -1711,7 +1711,7 @@ func main() {
 	log.Root().SetHandler(log.DiscardHandler())
 	m := c.StartModel()
 	defer m.Close()
-	c.Res.Rule = "per chain configuration (every built-in one, mainnet with HF8/HF9 scheduled, HF10 schedules, sparse and random fork maps) and per height around every fork: CalcDifficulty over parent-difficulty x time-delta lattices; candidate headers with each field at / just inside / just outside its bound relative to generated valid parents (as header and as uncle); batches of 1-64 headers (valid, corrupted, known prefix, failing seal, unknown ancestry) through VerifyHeaders under GOMAXPROCS 1/2/16 and one-by-one; uncle sets drawn from generated block trees. A case is distinct and non-trivial when the implementation accepts it (distinct accepted header / block hashes, distinct difficulty lattice points)"
+	c.Res.Rule = "per chain configuration (every built-in one, mainnet with HF8/HF9 scheduled, HF10 schedules, sparse and random fork maps) and per height around every fork: CalcDifficulty over parent-difficulty x time-delta lattices; candidate headers with each field at / just inside / just outside its bound relative to generated valid parents (as header and as uncle); batches of 1-64 headers (valid, corrupted, known prefix, failing seal, unknown ancestry) through VerifyHeaders under GOMAXPROCS 1/2/16 and one-by-one; uncle sets drawn from generated block trees; deterministically (no sub-sampling): every fork edge f-1/f/f+1 of every configuration on difficulty points that separate the two regimes, blocks at HF5/HF8/HF9 -2..+2 with 0-3 otherwise valid uncles (VerifyUncles) and on low-HF5 schedules through core.GenerateChain + BlockChain.InsertChain, ancestor / already-included uncles across version-changing forks, one directed case per known defect. A case is distinct and non-trivial when the implementation accepts it (distinct accepted header / block hashes, distinct difficulty lattice points)"
 	if aquahash.VerifFakeDifficultyMode() {
 		c.Fatal("FAKEPOWTEST is set: the difficulty algorithm is disabled in this process")
 	}
